@@ -373,7 +373,6 @@ def _model_identity(h):
 
 def _reset_support(h, nkeys):
     """Reset samples lie in Gymnasium's reset support (uniform parts bounded, fixed entries fixed)."""
-    import jax
     from jax import random as jr
 
     ctx, name, env = h.ctx, h.name, h.env
